@@ -94,16 +94,18 @@ func exportHubFamily(c *vk.Ctx, cfgs []HubCfg) (*graph.Graph, tlcrun.Result) {
 	g.Finish("")
 	for s, raw := range g.State {
 		var st struct {
-			Cfg   HubCfg `json:"cfg"`
-			Phase string `json:"phase"`
-			Ent   map[string]struct {
+			Cfg    HubCfg `json:"cfg"`
+			Phase  string `json:"phase"`
+			Resp   string `json:"resp"`
+			Ocache string `json:"ocache"`
+			Ent    map[string]struct {
 				Meta bool  `json:"meta"`
 				Locs bool  `json:"locs"`
 				Keys []any `json:"keys"`
 			} `json:"ent"`
 		}
 		json.Unmarshal(raw, &st)
-		if st.Cfg.String() == cfgs[0].String() && st.Phase == "new" && !st.Ent["D"].Meta && !st.Ent["U"].Meta && !st.Ent["D"].Locs && !st.Ent["U"].Locs && len(st.Ent["D"].Keys) == 0 && len(st.Ent["U"].Keys) == 0 {
+		if st.Cfg.String() == cfgs[0].String() && st.Phase == "new" && initialResp(st.Cfg, st.Resp) && st.Ocache == "none" && !st.Ent["D"].Meta && !st.Ent["U"].Meta && !st.Ent["D"].Locs && !st.Ent["U"].Locs && len(st.Ent["D"].Keys) == 0 && len(st.Ent["U"].Keys) == 0 {
 			g.Init = s
 		}
 	}
@@ -112,6 +114,14 @@ func exportHubFamily(c *vk.Ctx, cfgs []HubCfg) (*graph.Graph, tlcrun.Result) {
 	}
 	hubGraphs = []*graph.Graph{g}
 	return g, res
+}
+
+// initialResp: is r the responder behaviour of the specification's initial state of cfg?
+func initialResp(cfg HubCfg, r string) bool {
+	if cfg.Ocsp == "dyn" || cfg.Ocsp == "dyncache" {
+		return r == "good"
+	}
+	return r == cfg.Ocsp
 }
 
 // hubGraphs: the graphs of the latest export (looked up by state when a walk leaves the model, see hubAfterDivergence).
@@ -179,9 +189,11 @@ func exportHubGraphs(c *vk.Ctx, cfgs []HubCfg, dev []string, maxSteps int) ([]*g
 		// the initial state: phase new, nothing known, nothing stored
 		for s, raw := range g.State {
 			var st struct {
-				Cfg   HubCfg `json:"cfg"`
-				Phase string `json:"phase"`
-				Ent   map[string]struct {
+				Cfg    HubCfg `json:"cfg"`
+				Phase  string `json:"phase"`
+				Resp   string `json:"resp"`
+				Ocache string `json:"ocache"`
+				Ent    map[string]struct {
 					Meta bool  `json:"meta"`
 					Locs bool  `json:"locs"`
 					Keys []any `json:"keys"`
@@ -189,7 +201,7 @@ func exportHubGraphs(c *vk.Ctx, cfgs []HubCfg, dev []string, maxSteps int) ([]*g
 			}
 			json.Unmarshal(raw, &st)
 			// (a restart may switch to another configuration of CfgSpace: its fresh state is a leaf of this graph, not its start)
-			if st.Cfg.String() == cfgs[i].String() && st.Phase == "new" && !st.Ent["D"].Meta && !st.Ent["U"].Meta && !st.Ent["D"].Locs && !st.Ent["U"].Locs && len(st.Ent["D"].Keys) == 0 && len(st.Ent["U"].Keys) == 0 {
+			if st.Cfg.String() == cfgs[i].String() && st.Phase == "new" && initialResp(st.Cfg, st.Resp) && st.Ocache == "none" && !st.Ent["D"].Meta && !st.Ent["U"].Meta && !st.Ent["D"].Locs && !st.Ent["U"].Locs && len(st.Ent["D"].Keys) == 0 && len(st.Ent["U"].Keys) == 0 {
 				g.Init = s
 			}
 		}
@@ -215,6 +227,7 @@ type hubExpect struct {
 	Kind    string          `json:"kind"`
 	Cert    string          `json:"cert"`
 	Verdict string          `json:"verdict"`
+	Alt     string          `json:"alt"` // the verdict if the OCSP cache entry were absent ("any": not determined by the model)
 	Cause   string          `json:"cause"`
 	Intake  string          `json:"intake"`
 	OK      bool            `json:"ok"`
@@ -262,17 +275,21 @@ func newHubWorld(cfg HubCfg, shape Shape, seed int64) (*hubWorld, error) {
 	h := &hubWorld{cfg: cfg, shape: shape, rng: rand.New(rand.NewSource(seed)), cas: map[string]*pki.CA{}, leaves: map[string]*pki.Leaf{},
 		chains: map[string][][]*x509.Certificate{}, idOf: map[string]string{}, lastDoc: map[string]hubDoc{}}
 	h.org = origin.New()
-	sp := locationSpellings[int(seed/11)%len(locationSpellings)]
+	// every concretisation dimension is drawn independently from a generator of its own (walk seeds of one campaign are
+	// consecutive numbers: seed/k%n patterns made dimensions move together and left whole configurations with one variant)
+	dim := rand.New(rand.NewSource(seed*0x9E3779B9 + 77))
+	pick := func(n int) int { return dim.Intn(n) }
+	sp := locationSpellings[pick(len(locationSpellings))]
 	h.pathD, h.pathU = sp[0], sp[1]
 	alg := "ecdsa"
-	if seed%3 == 0 {
+	if pick(3) == 0 {
 		alg = "rsa"
 	}
 	// How the issuers are NAMED. n1 (A and its sibling S) and n2 (B) are different names in every variant; in three of four
 	// worlds they differ only in the ORDER of the attributes, in attribute types crypto/x509's pkix.Name does not know
 	// (domainComponent, emailAddress), or in two single-valued OU RDNs against one multi-valued RDN: a name handling that goes
 	// through a lossy normal form would confuse them or fail to find A's own entries.
-	h.nameVariant = []string{"plain", "order", "dc", "twoou"}[int(seed/19)%4]
+	h.nameVariant = []string{"plain", "order", "dc", "twoou"}[pick(4)]
 	a := func(oid asn1.ObjectIdentifier, v string) []pki.Attr { return []pki.Attr{{OID: oid, Value: v}} }
 	var rawA, rawB []byte
 	switch h.nameVariant {
@@ -291,7 +308,7 @@ func newHubWorld(cfg HubCfg, shape Shape, seed int64) (*hubWorld, error) {
 		nameB = "Hub CA n1"
 	}
 	var rootA *pki.CA
-	h.chainVariant = []string{"flat", "inter", "two"}[int(seed/7)%3]
+	h.chainVariant = []string{"flat", "inter", "two"}[pick(3)]
 	if h.chainVariant == "inter" {
 		// the issuer of the leaves is an intermediate; the chain is leaf, intermediate, root
 		rootA = pki.NewCA(pki.CAOpts{Name: "Hub Root above n1", Serial: 100})
@@ -300,14 +317,14 @@ func newHubWorld(cfg HubCfg, shape Shape, seed int64) (*hubWorld, error) {
 		h.cas["A"] = pki.NewCA(pki.CAOpts{Name: "Hub CA n1", Alg: alg, RSAIndex: 0, Serial: 101, RawName: rawA})
 	}
 	sOpts := pki.CAOpts{Name: "Hub CA n1", Alg: alg, RSAIndex: 1, Serial: 102, RawName: rawA}
-	if seed%2 == 0 {
+	if pick(2) == 0 {
 		sOpts.SKI = h.cas["A"].Cert.SubjectKeyId // sibling that also claims A's key identifier
 	}
 	h.cas["S"] = pki.NewCA(sOpts)
 	h.cas["B"] = pki.NewCA(pki.CAOpts{Name: nameB, Serial: 103, RawName: rawB})
 	var ocspURLs []string
 	switch cfg.Ocsp {
-	case "good", "revoked":
+	case "good", "revoked", "dyn", "dyncache":
 		ocspURLs = []string{h.org.URL + pathOCSP}
 	case "down":
 		ocspURLs = []string{origin.ClosedPortURL() + pathOCSP}
@@ -315,7 +332,7 @@ func newHubWorld(cfg HubCfg, shape Shape, seed int64) (*hubWorld, error) {
 	// The model's location D is c1's distribution-point SET. It is one http URL, or that URL behind an ldap URL (unsupported
 	// scheme, to be skipped), or behind a mirror that refuses every connection (to be given up for the next one): the set is
 	// usable exactly when its http URL is, so the model does not change.
-	h.cdpVariant = []string{"single", "ldap-first", "single", "mirror"}[int(seed/17)%4]
+	h.cdpVariant = []string{"single", "ldap-first", "single", "mirror"}[pick(4)]
 	cdp := []string{h.org.URL + h.pathD}
 	switch h.cdpVariant {
 	case "ldap-first":
@@ -323,7 +340,7 @@ func newHubWorld(cfg HubCfg, shape Shape, seed int64) (*hubWorld, error) {
 	case "mirror":
 		cdp = []string{origin.ClosedPortURL() + "/mirror/hub-ca-n1.crl", cdp[0]}
 	}
-	h.leaves["c1"] = h.cas["A"].Leaf(pki.LeafOpts{CN: "c1", Serial: shape.Serial(1), CDP: cdp, OCSP: ocspURLs, NoKeyUsage: seed%2 == 1})
+	h.leaves["c1"] = h.cas["A"].Leaf(pki.LeafOpts{CN: "c1", Serial: shape.Serial(1), CDP: cdp, OCSP: ocspURLs, NoKeyUsage: pick(2) == 1})
 	// "E": the end-entity signing CRLs with its own key (issuer name = its subject, AKI = its key identifier)
 	h.cas["E"] = &pki.CA{Name: "c1", Key: h.leaves["c1"].Key, Cert: h.leaves["c1"].Cert, Alg: "ecdsa"}
 	h.leaves["c2"] = h.cas["A"].Leaf(pki.LeafOpts{CN: "c2", Serial: shape.Serial(2)})
@@ -334,7 +351,7 @@ func newHubWorld(cfg HubCfg, shape Shape, seed int64) (*hubWorld, error) {
 		{h.org.URL + "/crl/Example%20CA%.crl"},
 		{"http://127.0.0.1:80a/ca.crl", "ldap://directory.example/cn=crl,o=verif?certificateRevocationList"},
 		{"http://[::1/ca.crl"},
-	}[int(seed/23)%4]
+	}[pick(4)]
 	h.leaves["c3"] = h.cas["B"].Leaf(pki.LeafOpts{CN: "c3", Serial: shape.Serial(1), CDP: unusable})
 	h.chains["c1"] = pki.Chain(h.leaves["c1"].Cert, h.cas["A"])
 	h.chains["c2"] = pki.Chain(h.leaves["c2"].Cert, h.cas["A"])
@@ -350,17 +367,19 @@ func newHubWorld(cfg HubCfg, shape Shape, seed int64) (*hubWorld, error) {
 			h.chains[id] = append(h.chains[id], []*x509.Certificate{h.leaves[id].Cert, h.cas["A"].Cert, cross.Cert})
 		}
 	}
-	if cfg.Ocsp == "good" || cfg.Ocsp == "revoked" {
-		st := ocsp.Good
-		if cfg.Ocsp == "revoked" {
-			st = ocsp.Revoked
-		}
-		a := h.cas["A"]
-		resp := pki.OCSPResponse(pki.OCSPOpts{Status: st, Serial: h.leaves["c1"].Cert.SerialNumber, Issuer: a.Cert, Signer: a, SignerCert: a.Cert, ThisUpdate: time.Now().Add(-time.Minute)})
-		h.org.Set(pathOCSP, origin.Behaviour{Kind: "func", Func: func([]byte) (int, []byte) { return 200, resp }})
+	switch cfg.Ocsp {
+	case "good", "revoked":
+		h.respond(cfg.Ocsp)
+	case "dyn", "dyncache":
+		h.respond("good") // the specification's initial value of resp
 	}
 	wc := world.Cfg{Sig: cfg.Sig, CdpStrict: cfg.Strict, AiaStrict: cfg.Aia, Interval: "1h"}
-	if (seed/13)%3 != 0 {
+	if cfg.Ocsp == "dyn" || cfg.Ocsp == "dyncache" {
+		// the responder changes its behaviour: whether answers are remembered is part of the configuration
+		if cfg.Ocsp == "dyncache" {
+			wc.CacheDur = "1h"
+		}
+	} else if pick(3) != 0 {
 		// the responder of a configuration never changes its mind, so caching its answers is invisible to the model: two worlds
 		// in three run with the OCSP cache on (whatever else a verdict is made of must not leak into it)
 		wc.CacheDur = "1h"
@@ -668,6 +687,8 @@ func runHubWalk(c *vk.Ctx, cfg HubCfg, walk []*graph.Edge, shape Shape, seed int
 					c.Drift("bgload-timeout")
 				}
 			}
+		case "respond":
+			h.respond(op[1].(string))
 		case "handshake-nochain":
 			r := h.w.HandshakeTimeout(nil, 30*time.Second)
 			obs.Verdict, obs.Err = r.Verdict, r.Err
@@ -818,6 +839,21 @@ func hubAfterDivergence(c *vk.Ctx, h *hubWorld, cfg HubCfg, last *graph.Edge, sh
 		}
 	}
 	return n
+}
+
+// respond sets what c1's OCSP responder does from now on: an authentic good / revoked answer, or no usable answer at all.
+func (h *hubWorld) respond(kind string) {
+	if kind == "down" {
+		h.org.Set(pathOCSP, origin.Behaviour{Kind: "status", Code: 500, Body: []byte("internal server error\n")})
+		return
+	}
+	st := ocsp.Good
+	if kind == "revoked" {
+		st = ocsp.Revoked
+	}
+	a := h.cas["A"]
+	resp := pki.OCSPResponse(pki.OCSPOpts{Status: st, Serial: h.leaves["c1"].Cert.SerialNumber, Issuer: a.Cert, Signer: a, SignerCert: a.Cert, ThisUpdate: time.Now().Add(-time.Minute)})
+	h.org.Set(pathOCSP, origin.Behaviour{Kind: "func", Func: func([]byte) (int, []byte) { return 200, resp }})
 }
 
 // hubDrift compares the projection of the real state with the model; "" if they agree.
